@@ -208,7 +208,105 @@ def r_coverage(ctx):
                                       "parent() of that child is None" % (key, kinds[inner], name))
 
 
+def r_descent(ctx):
+    import absint
+    from absint import Interp, Return, Unknown, OPAQUE, MutList
+    rid = "C20.descent"
+    ctx.rule(rid, "ParentVisitor::visit_type1 on a type1 with a range or control operator: the walk reaches visit_type2 for the target (left "
+                  "operand) and for the controller (right operand) — whatever lies below either operand is indexed only if the walk "
+                  "descends into it — and without an operator it reaches the type2 (abstract evaluation through the overriding methods of "
+                  "src/ast/parent.rs, the default methods of the Visitor trait and the walk_* functions of src/visitor.rs; arena and "
+                  "visit_type2 scripted)", floor=3)
+    f = ctx.facts
+    VIS = "src/visitor.rs"
+    over = {fi.name: fi for fi in f.fns(PAR) if fi.impl_trait and fi.impl_trait.split("<")[0].endswith("Visitor") and not fi.in_test and all(absint.default_cfg(c) for c in fi.cfg)}
+    defaults = {}
+    walks = {}
+    for fi in f.fns(VIS):
+        if fi.in_test or not all(absint.default_cfg(c) for c in fi.cfg):
+            continue
+        if fi.name.startswith("walk_") and fi.impl_self is None:
+            walks[fi.name] = fi
+        elif fi.name.startswith("visit_") and fi.node.get("body") is not None:
+            defaults.setdefault(fi.name, fi)
+    if "visit_type1" not in over:
+        raise vf.Incomplete("ParentVisitor::visit_type1 not found")
+
+    def t2(tag):
+        return ("enum", "Type2::Map", {"group": OPAQUE, "tag": tag})
+    ops = {"control": ("enum", "RangeCtlOp::CtlOp", {"ctrl": ("enum", "ControlOperator::WITHIN", [])}),
+           "range": ("enum", "RangeCtlOp::RangeOp", {"is_inclusive": True}), "none": None}
+    for label, op in ops.items():
+        seen = []
+        operator = ("None",) if op is None else ("Some", ("enum", "Operator", {"operator": op, "type2": t2("controller")}))
+        t1 = ("enum", "Type1", {"type2": t2("target"), "operator": operator})
+        selfo = ("enum", "Self", {"arena_tree": ("arena",)})
+        depth = [0]
+
+        def call_fn(fi, selfv, args, on_call):
+            names = [inp["pat"]["n"] if inp.get("pat", {}).get("k") == "pid" else None for inp in fi.node["sig"]["inputs"] if "self" not in inp]
+            env = {n: a for n, a in zip(names, args) if n}
+            if selfv is not None:
+                env["self"] = selfv
+            sub = Interp(env=env, cfg=absint.default_cfg, on_call=on_call)
+            depth[0] += 1
+            try:
+                if depth[0] > 30:
+                    raise Unknown("depth")
+                try:
+                    return sub.block(fi.node["body"])
+                except Return as r:
+                    return r.v
+            finally:
+                depth[0] -= 1
+
+        def on_call(kind, nm, node, args, recv, seen=seen):
+            is_visitor = isinstance(recv, tuple) and recv[:2] == ("enum", "Self")
+            if kind == "method" and isinstance(recv, tuple) and recv[:1] == ("arena",) and nm == "node":
+                return ("nodeid",)
+            if kind == "method" and is_visitor:
+                a = [absint.CURRENT.eval(x) for x in node["a"]]
+                if nm == "insert":
+                    return ("Ok", ("tuple", []))
+                if nm == "visit_type2":
+                    seen.append(a[0][2].get("tag") if isinstance(a[0], tuple) and len(a[0]) > 2 and isinstance(a[0][2], dict) else repr(a[0])[:30])
+                    return ("Ok", ("tuple", []))
+                if nm in over:
+                    return call_fn(over[nm], recv, a, on_call)
+                if nm in defaults:
+                    return call_fn(defaults[nm], recv, a, on_call)
+                return NotImplemented
+            if kind == "fn" and nm:
+                b = nm.split("::")[-1]
+                if b in walks:
+                    # walk_x(visitor, ...): the first argument is the visitor
+                    fi = walks[b]
+                    names = [inp["pat"]["n"] if inp.get("pat", {}).get("k") == "pid" else None for inp in fi.node["sig"]["inputs"]]
+                    sub = Interp(env={n: v for n, v in zip(names, args) if n}, cfg=absint.default_cfg, on_call=on_call)
+                    try:
+                        return sub.block(fi.node["body"])
+                    except Return as r:
+                        return r.v
+                if b.startswith("CDDLType::"):
+                    return ("cddltype", b)
+            return NotImplemented
+        try:
+            call_fn(over["visit_type1"], selfo, [t1], on_call)
+        except Unknown as e:
+            ctx.incomplete_msg(rid, "%s operator: %s" % (label, e))
+            continue
+        fi = over["visit_type1"]
+        ctx.site(rid, label, PAR, fi.line, {"visit_type2_reached_for": seen})
+        want = ["target"] if op is None else ["target", "controller"]
+        for w in want:
+            if w not in seen:
+                ctx.violation(rid, "%s|%s-not-walked" % (label, w), PAR, fi.line, "ParentVisitor::visit_type1 on `target %s controller`: visit_type2 is never reached for the "
+                              "%s (reached: %r) — every node below a composite %s (`{ a: tstr } .within base`) has no parent in the index"
+                              % ({"control": ".ctl", "range": "..", "none": ""}[label], w, seen, w))
+
+
 def run(ctx):
     ctx.guarded("C20.identity", r_identity)
     ctx.guarded("C20.firstwins", r_firstwins)
     ctx.guarded("C20.coverage", r_coverage)
+    ctx.guarded("C20.descent", r_descent)
